@@ -4,7 +4,7 @@ import json
 import os
 import tempfile
 
-from .. import core, gen, gram
+from .. import core, tables, gen, gram
 
 LEVEL = "translation_validation"
 CLAIM = ("For every accepted generated grammar (literals, descriptions and commands with quotes, backslashes, braces and DOT escape "
@@ -87,7 +87,7 @@ def run_bin(args):
     sh, text, workdir, tag = args
     dfa = os.path.join(workdir, tag + ".dfa")
     rx = os.path.join(workdir, tag + ".rx")
-    rc, out, err = core.run_complgen(sh, text, extra=["--dfa", dfa, "--regex", rx], out=os.devnull)
+    rc, out, err = core.run_complgen(sh, text, extra=["--dfa", dfa, "--regex", rx], out="-")
     res = []
     for p in (dfa, rx):
         try:
@@ -96,7 +96,7 @@ def run_bin(args):
             os.unlink(p)
         except OSError:
             res.append(None)
-    return rc, res[0], res[1]
+    return rc, res[0], res[1], (out.decode("utf-8", "replace") if isinstance(out, bytes) else "")
 
 
 def parse_dump(ans):
@@ -188,6 +188,22 @@ def check_dfa(ctx, rp, rec, base, parsed):
     if dashed != want_dashed:
         miss = sorted(dashed ^ want_dashed)[:4]
         ctx.violation("dfa-entry-exit-edges-differ", dict(rp, what=f"dashed entry/exit edges differ from (from -> start of the word automaton, its accepting states -> to): {miss}"))
+        return
+    # the clusters are numbered as the within-word functions of the emitted script: where the script goes from state f
+    # into `_cmd_subword_N`, the dump enters cluster N from node f
+    script = rec.get("script")
+    if script and used:
+        try:
+            t = tables.extract_tables(script, rp.get("shell", "bash"))
+        except ValueError:
+            return   # the tables are C04's business
+        entries = {(f[1], f[2]) for f in t["main"] if f[0] == "mW"}
+        for f_, n_ in sorted(entries):
+            if not any(a == f"_{f_}" and b.startswith(f"_{n_}_") for a, b in dashed):
+                ctx.violation("dfa-cluster-numbering-differs-from-script", dict(rp, what=(
+                    f"the script enters within-word function {n_} from state {f_}; the --dfa file has no entry edge from node {f_} "
+                    f"into cluster {n_} (entry edges: {sorted(dashed)[:6]})")))
+                return
 
 
 def check_rx(ctx, rp, rec, parsed):
@@ -227,13 +243,14 @@ def run(ctx, proof):
     with concurrent.futures.ThreadPoolExecutor(16) as ex:
         outs = list(ex.map(run_bin, jobs, chunksize=4))
     reqs, plan = [], []
-    for (cid, sh, text), (rc, dfa, rx) in zip(cases, outs):
+    for (cid, sh, text), (rc, dfa, rx, script) in zip(cases, outs):
         rec = recs.get(cid, {})
         ctx.evaluations += 1
         ctx.count("stage:" + str(rec.get("stage")))
         if rec.get("stage") != "ok":
             continue
         rp = {"grammar": text, "grammar_hex": core.hexs(text), "shell": sh}
+        rec = dict(rec, script=script)
         if rc != 0 or dfa is None or rx is None:
             ctx.violation("dump-not-written", dict(rp, exit=rc, what="accepted grammar but --dfa / --regex file missing"))
             continue
@@ -268,7 +285,8 @@ def replay(ctx, proof, path):
     workdir = tempfile.mkdtemp(prefix="c16r-", dir=ctx.workdir)
     sh, text = rp["shell"], rp["grammar"]
     rec = core.run_vh([("r", sh, text)], flags="rx,dfa").get("r", {})
-    rc, dfa, rx = run_bin((sh, text, workdir, "r"))
+    rc, dfa, rx, script = run_bin((sh, text, workdir, "r"))
+    rec = dict(rec, script=script)
     os.rmdir(workdir)
     if rec.get("stage") != "ok":
         print("replay: grammar no longer accepted")
